@@ -1,5 +1,75 @@
 package main
 
+import (
+	"fmt"
+	"math"
+
+	"github.com/antonmedv/expr"
+)
+
+type negZeroEnv struct{}
+
+func (negZeroEnv) NegZero() float64 { return math.Copysign(0, -1) }
+
+// negZeroAliasProbe exhibits on the real code the one exclusion of the refinement theorem that is a defect
+// of the code (`AliasFree`, Props/C01 `negzero_alias_witness`): compiler.makeConstant de-duplicates through
+// a Go map keyed by the constant, and +0.0 == -0.0 as map keys, so a -0.0 constant (produced by a ConstExpr
+// function) shares the pool slot of an earlier 0.0 and loses its sign.  Oracle: the same source without
+// ConstExpr (the call happens at run time).
+func negZeroAliasProbe(c *Ctx) {
+	r := c.R
+	src := "[0.0, NegZero()]"
+	signs := func(opts ...expr.Option) (string, error) {
+		p, err := expr.Compile(src, append([]expr.Option{expr.Env(negZeroEnv{})}, opts...)...)
+		if err != nil {
+			return "", err
+		}
+		out, err := expr.Run(p, negZeroEnv{})
+		if err != nil {
+			return "", err
+		}
+		xs, ok := out.([]interface{})
+		if !ok || len(xs) != 2 {
+			return "", fmt.Errorf("unexpected result %v", out)
+		}
+		res := ""
+		for _, x := range xs {
+			f, ok := x.(float64)
+			if !ok {
+				return "", fmt.Errorf("unexpected element %v", x)
+			}
+			res += fmt.Sprintf("%v/signbit=%v ", f, math.Signbit(f))
+		}
+		return res, nil
+	}
+	var plain, folded string
+	var err1, err2 error
+	func() {
+		defer func() {
+			if e := recover(); e != nil {
+				err1 = fmt.Errorf("panic: %v", e)
+			}
+		}()
+		plain, err1 = signs()
+		folded, err2 = signs(expr.ConstExpr("NegZero"))
+	}()
+	r.Case("negzero-alias-probe", true)
+	if err1 != nil || err2 != nil {
+		r.Mismatch("generator", src, "both variants run", fmt.Sprintf("%v / %v", err1, err2))
+		return
+	}
+	r.Count("negzero-probe", 1)
+	if plain != folded {
+		r.Violate(Violation{
+			What:   "a -0.0 constant shares the constant-pool slot of an earlier 0.0 and loses its sign",
+			Key:    "c01:negative-zero-constant-aliased",
+			Input:  map[string]string{"expr": src, "option": "expr.ConstExpr(\"NegZero\")", "env": "NegZero() = math.Copysign(0, -1)"},
+			Expect: plain,
+			Got:    folded,
+		})
+	}
+}
+
 func runC01(c *Ctx) {
 	r := c.R
 	r.Rule = "generated expressions (type-directed; every node kind, nested closures and conditionals) x modes x environments: (i) compile model = compiler.Compile byte for byte, (ii) VM model = (*VM).Run, (iii) reference evaluator Spec.eval = real run (value, error class, call log, allocation total); non-trivial = source longer than 6 characters"
@@ -27,6 +97,7 @@ func runC01(c *Ctx) {
 	SpecCorrespondence(c, res, 1000, asIs.RangeSigned, true, func(vr *VMResult, spec, real string) {
 		r.Mismatch("spec", vr.Case.Src+" ["+vr.Case.Mode.String()+"] env="+valSx(envVal(vr.Case)).String()+" tree="+vr.Case.B.TreeSx, spec, real)
 	})
+	negZeroAliasProbe(c)
 }
 
 func init() { props["C01"] = runC01 }
